@@ -271,8 +271,48 @@ func c20Mutated(c *Ctx) {
 	}
 }
 
+// c20Pages: short and long inputs laid across a 4096-byte page boundary (a whole-word load must not stand in for the
+// bytes on the other side), with the one byte that decides the answer at each position
+func c20Pages(c *Ctx) {
+	buf := make([]byte, 3*4096)
+	base := uintptr(unsafe.Pointer(&buf[0]))
+	edge := int((4096-base%4096)%4096) + 4096 // index of the first byte of a page, with a full page before it
+	for n := 1; n <= 24; n++ {
+		for start := edge - n - 1; start <= edge+1; start++ {
+			for pos := 0; pos < n; pos++ {
+				for _, bad := range []byte{0x80, 0x07} {
+					for i := range buf {
+						buf[i] = 'a'
+					}
+					buf[start+pos] = bad
+					b := buf[start : start+n : start+n]
+					str := unsafe.String(&buf[start], n)
+					k := c20Case{"pages", []byte{byte(n)}, []byte{byte(pos)}, start - edge, false}
+					for _, q := range []struct {
+						api  string
+						want bool
+						f    func() bool
+					}{
+						{"Valid", bad < 0x80, func() bool { return ascii.Valid(b) }},
+						{"ValidString", bad < 0x80, func() bool { return ascii.ValidString(str) }},
+						{"ValidPrint", false, func() bool { return ascii.ValidPrint(b) }},
+						{"ValidPrintString", false, func() bool { return ascii.ValidPrintString(str) }},
+					} {
+						var got bool
+						c.Eval(1)
+						if p := protect(func() { got = q.f() }); p != "" || got != q.want {
+							c.Diverge("C20", q.api+"(input across a page boundary)", fmt.Sprint(q.want), fmt.Sprintf("%v %s (length %d starting %d bytes from the boundary, byte %#x at %d)", got, p, n, start-edge, bad, pos), "", k)
+						}
+					}
+				}
+			}
+		}
+	}
+}
+
 func c20Extra(c *Ctx) {
 	c20Mutated(c)
+	c20Pages(c)
 	// single bytes and runes: the whole domain
 	for i := 0; i < 256; i++ {
 		b := byte(i)
@@ -348,7 +388,7 @@ func c20Replay(c *Ctx, raw stdjson.RawMessage) {
 	if stdjson.Unmarshal(raw, &k) != nil {
 		return
 	}
-	if strings.Contains(k.API, "Rune") || strings.Contains(k.API, "Byte") || k.API == "mutated buffer" {
+	if strings.Contains(k.API, "Rune") || strings.Contains(k.API, "Byte") || k.API == "mutated buffer" || k.API == "pages" {
 		c20Extra(c)
 		return
 	}
